@@ -79,6 +79,21 @@ let run_conv_case hd body =
   | ["EL"; "DW"; _] -> let es = List.map parse_triple ops in emit_ms (dw_el_case !variant es) (w_el_spec false es)
   | ["EL"; "UW"; _] -> let es = List.map parse_triple ops in emit_ms (uw_el_case !variant es) (w_el_spec true es)
   | _ -> failwith "bad CV/EL case"
+let ilines : string list ref = ref []          (* the implementation's lines for the current case (oracle values are read from them) *)
+let ints_of str = List.map int_of_string (toks str)
+let segs_of_iline l = (* "I a b | c d | ..." -> int list list *)
+  let body = if String.length l > 2 then String.sub l 2 (String.length l - 2) else "" in List.map (fun sg -> try ints_of sg with _ -> []) (String.split_on_char '|' body)
+let run_sub_case hd body =
+  let parts = String.split_on_char '|' body in
+  let opsof str = List.filter (fun t -> t <> []) (List.map toks (String.split_on_char ';' str)) in
+  let ops, sset = (match parts with [a; b] -> opsof a, List.map (fun x -> nat_of_int (min (int_of_string x) 1000)) (toks b) | [a] -> opsof a, [] | _ -> failwith "bad SUB case") in
+  let il = List.filter (fun l -> l = "I" || (String.length l >= 2 && String.sub l 0 2 = "I ")) !ilines in
+  let so = (match il with l :: _ -> (match segs_of_iline l with sg :: _ -> List.map (fun x -> nat_of_int (min x 1000)) sg | [] -> []) | [] -> sset) in
+  let fmap = (match il with [_; _; l3] -> let sg = segs_of_iline l3 in (match List.rev sg with last :: _ when List.length last = List.length so -> List.map2 (fun v x -> (v, nat_of_int x)) so last | _ -> []) | _ -> []) in
+  match hd with
+  | ["SUB"; "D"; lk; n] -> let hs = lk <> "none" in let o = List.map parse_dop ops in emit_ms (d_sub_case hs !variant (ni n) o sset so) (d_sub_spec hs (ni n) o sset so fmap)
+  | ["SUB"; "U"; lk; n] -> let hs = lk <> "none" in let o = List.map parse_uop ops in emit_ms (u_sub_case hs !variant (ni n) o sset so) (u_sub_spec hs (ni n) o sset so fmap)
+  | _ -> failwith "bad SUB case"
 let run_case line =
   match String.index_opt line ':' with
   | None -> failwith ("bad case: " ^ line)
@@ -86,6 +101,7 @@ let run_case line =
     let hd = toks (String.sub line 0 c) and body = String.sub line (c+1) (String.length line - c - 1) in
     if (match hd with "EQ" :: _ -> true | _ -> false) then run_eq_case hd body else
     if (match hd with "CV" :: _ | "EL" :: _ -> true | _ -> false) then run_conv_case hd body else
+    if (match hd with "SUB" :: _ -> true | _ -> false) then run_sub_case hd body else
     let ops = List.filter (fun t -> t <> []) (List.map toks (String.split_on_char ';' body)) in
     (match hd with
      | ["D"; lk; n] ->
@@ -101,8 +117,16 @@ let run_case line =
      | _ -> failwith ("unknown class in: " ^ line))
 let () =
   Array.iter (fun a -> if a = "pinned" then (variant := pinned; um_set0 := false; uw_canon := false); if a = "fspec" then fspec := true; if a = "nokeep" then keep_label := false) Sys.argv;
-  (try while true do
-     let line = input_line stdin in
-     if String.length line > 5 && String.sub line 0 5 = "CASE " then begin
-       print_string line; print_char '\n'; run_case (String.sub line 5 (String.length line - 5)) end
-   done with End_of_file -> ())
+  let lines = ref [] in
+  (try while true do lines := input_line stdin :: !lines done with End_of_file -> ());
+  let rec go = function
+    | [] -> ()
+    | l :: rest when String.length l > 5 && String.sub l 0 5 = "CASE " ->
+      let rec split acc = function
+        | (x :: _) as r when String.length x > 5 && String.sub x 0 5 = "CASE " -> (List.rev acc, r)
+        | x :: r -> split (x :: acc) r
+        | [] -> (List.rev acc, []) in
+      let (mine, others) = split [] rest in
+      ilines := mine; print_string l; print_char '\n'; run_case (String.sub l 5 (String.length l - 5)); go others
+    | _ :: rest -> go rest in
+  go (List.rev !lines)
